@@ -23,6 +23,7 @@ fi
 YIELD=""
 RACE=""
 case "$ID" in
+  C05|C17|C18) YIELD="storage,storage/fsstore,storage/sharding,storage/memstore,linking,linking/cid" ;;
   C20) YIELD="datamodel,node/basicnode,node/bindnode,node/gendemo,schema,traversal,traversal/selector,linking,linking/cid,multicodec,codec,codec/dagcbor,codec/dagjson,codec/cbor,codec/json,codec/raw,storage/memstore,storage/fsstore,storage,printer,node/mixins" ;;
 esac
 DETMAPS=""
